@@ -11,18 +11,55 @@ strictly growing, completion edits single-line around the cursor, workspace-edit
 -/
 namespace LspShape
 
-/-- **C26 decode∘build.** A client decoding `SemanticTokens.data` obtains exactly the builder's entries,
-sorted by (line, column): nothing lost, nothing invented, no position shifted. -/
-theorem C26_decode_build (es : List Entry) : decode 0 0 (build es) = sortE es :=
-  decode_encode _ 0 0 (sortedFrom_sortE es)
+/-- **C26 decode∘build.** A client decoding `SemanticTokens.data` obtains exactly the builder's normalized
+entries (empty ones dropped, sorted by start, equal starts collapsed, overlaps clipped): no position is
+shifted by the delta encoding, for every entry list. -/
+theorem C26_decode_build (es : List Entry) : decode 0 0 (build es) = normalize es :=
+  decode_encode _ 0 0 (sortedFrom_clip _ 0 0 (sortedFrom_sortE _))
 
-/-- the decoded tokens are a permutation of the entries -/
-theorem C26_decode_build_perm (es : List Entry) : (decode 0 0 (build es)).Perm es := by
-  rw [C26_decode_build]; exact sortE_perm es
+/-- **C26 tokens ordered and disjoint.** Whatever the producers push — overlapping, duplicated, unsorted,
+empty entries — the decoded tokens come in order and never overlap. -/
+theorem C26_build_ordered (es : List Entry) : Ordered (decode 0 0 (build es)) := by
+  rw [C26_decode_build]; exact ordered_clip _ (sortedFrom_sortE _)
 
 /-- the decoded tokens come in (line, column) order -/
 theorem C26_decode_sorted (es : List Entry) : SortedFrom 0 0 (decode 0 0 (build es)) := by
-  rw [C26_decode_build]; exact sortedFrom_sortE es
+  rw [C26_decode_build]; exact sortedFrom_clip _ 0 0 (sortedFrom_sortE _)
+
+/-- no token is invented: every decoded token is one of the pushed entries (same start, type, modifiers),
+possibly shortened -/
+theorem C26_tokens_from_entries (es : List Entry) :
+    ∀ t ∈ decode 0 0 (build es), FromEntry es t := by
+  rw [C26_decode_build]
+  intro t ht
+  unfold normalize clip at ht
+  split at ht
+  · cases ht
+  · rename_i a rest heq
+    obtain ⟨e, he, h⟩ := clipFrom_from a rest t ht
+    rw [← heq] at he
+    have := (sortE_perm _).mem_iff.mp he
+    exact ⟨e, (List.mem_filter.mp this).1, h⟩
+
+/-- **C26 nothing lost iff the input is ordered/disjoint.** For entries without empty ones: the client sees
+all of them unchanged (a permutation of the input) exactly when the sorted entries are already ordered and
+non-overlapping. -/
+theorem C26_all_kept_iff_disjoint (es : List Entry) (hp : ∀ e ∈ es, 0 < e.len) :
+    decode 0 0 (build es) = sortE es ↔ Ordered (sortE es) := by
+  constructor
+  · intro h; rw [← h]; exact C26_build_ordered es
+  · intro ho
+    rw [C26_decode_build]
+    unfold normalize
+    rw [filter_pos_id es hp]
+    exact clip_id _ ho (fun e he => hp e ((sortE_perm es).mem_iff.mp he))
+
+theorem C26_sort_perm (es : List Entry) : (sortE es).Perm es := sortE_perm es
+
+/-- **C26 selection ranges.** A chain in which every parent contains its child becomes strictly growing
+once equal consecutive ranges are merged (what `ranges.dedup()` does in the handler). -/
+theorem C26_selection_strict_after_dedup (rs : List Range) (h : chainNested rs = true) :
+    chainStrict (dedupAdj rs) = true := chainStrict_dedupAdj rs h
 
 /-- **C26 legend in range.** Every token type index `to_u32` can produce is inside the advertised legend
 and names the same type as `to_semantic_token_type`; every modifier bit is the bit of its legend slot
@@ -39,6 +76,13 @@ theorem C26_legend_in_range :
 /-! ### Non-vacuity (tests, labelled as such) -/
 example : build [⟨2, 4, 3, 1, 0⟩, ⟨0, 1, 2, 5, 1⟩, ⟨2, 0, 1, 7, 0⟩] = [⟨0, 1, 2, 5, 1⟩, ⟨2, 0, 1, 7, 0⟩, ⟨0, 4, 3, 1, 0⟩] := by decide
 example : decode 0 0 (build [⟨2, 4, 3, 1, 0⟩, ⟨0, 1, 2, 5, 1⟩, ⟨2, 0, 1, 7, 0⟩]) = [⟨0, 1, 2, 5, 1⟩, ⟨2, 0, 1, 7, 0⟩, ⟨2, 4, 3, 1, 0⟩] := by decide
-example : pushData false 1 3 3 2 18 0 = [⟨1, 3, 9999, 18, 0⟩, ⟨2, 0, 9999, 18, 0⟩, ⟨3, 0, 2, 18, 0⟩] := by decide
+-- the shapes found on the unfixed tree: a duplicated token, a line-long token over finer ones, an empty entry
+example : normalize [⟨1, 0, 4, 17, 0⟩, ⟨1, 4, 3, 21, 0⟩, ⟨1, 0, 4, 17, 0⟩] = [⟨1, 0, 4, 17, 0⟩, ⟨1, 4, 3, 21, 0⟩] := by decide
+example : normalize [⟨2, 2, 4, 17, 0⟩, ⟨2, 0, 11, 17, 0⟩, ⟨0, 15, 0, 17, 0⟩] = [⟨2, 0, 2, 17, 0⟩, ⟨2, 2, 4, 17, 0⟩] := by decide
+example : ¬ Ordered (sortE [⟨2, 2, 4, 17, 0⟩, ⟨2, 0, 11, 17, 0⟩]) := by decide
+example : Ordered (sortE [⟨2, 4, 3, 1, 0⟩, ⟨0, 1, 2, 5, 1⟩, ⟨2, 0, 1, 7, 0⟩]) := by decide
+-- a token whose parent node has the same range: nested but not strict; strict after dedup
+example : chainNested [⟨(0, 0), (0, 3)⟩, ⟨(0, 0), (0, 3)⟩, ⟨(0, 0), (1, 0)⟩] = true ∧
+    chainStrict [⟨(0, 0), (0, 3)⟩, ⟨(0, 0), (0, 3)⟩, ⟨(0, 0), (1, 0)⟩] = false := by decide
 
 end LspShape
